@@ -148,6 +148,12 @@ package dns
 //@   loop 1 invariant fin:    ls >= 1 && (i == ls ==> begin == ls)
 //@   loop 1 invariant rest:  ns63(s, 0, 0, false) == ns63(s, i + compOff, i - begin, wasDot)
 //@   loop 1 invariant ptr:   pointer == 0 - 1
+// octet contents of the label being scanned: the working copy holds, from the label's start, the values of the
+// label's escape units in text order (compBegin is the text position of the label's start)
+// ... and a dot emits them as one wire label: the length octet, then those values
+//@   assert at "begin = i + 1" wirelabel: msg[off - 1 - (i - begin)] == i - begin && (forall k in 0..i-begin :: msg[off - (i - begin) + k] == uval(s, upos(s, compBegin, k))) [C01 C03]
+//@   loop 1 invariant upos:  i < ls ==> upos(s, compBegin, i - begin) == i + compOff [C01]
+//@   loop 1 invariant uvals: forall k in 0..i-begin :: (bs == nil ? s[begin+k] : bs[begin+k]) == uval(s, upos(s, compBegin, k)) [C01]
 //@   loop 1 decreases ls - i
 
 // Map value invariants (type-level): compression offsets are message offsets.  Checked at every map update in
